@@ -1815,6 +1815,19 @@ class Gen:
                 reverse = [c for c in order if r.random() < 0.35]
         if not part and not ordered and r.random() < 0.3 and keyish:
             part = [r.choice(keyish)]
+        # a window keyed / ordered by a column the plain extend right below has just (re)defined: the SQL generator may
+        # merge the two steps only if the window does not depend on that column
+        pl = st.last if (st.last and st.last.get("call") == "extend" and not st.last.get("windowed")) else None
+        if pl and not sibling and r.random() < 0.35:
+            cand = [t for t in pl.get("targets", []) if t in st.cols and t not in part and t not in order
+                    and not st.ci[t].null]
+            if cand:
+                t = r.choice(cand)
+                if ordered:
+                    order = [t] + order[:2]
+                    reverse = [c for c in reverse if c in order] + ([t] if r.random() < 0.35 else [])
+                elif st.ci[t].kind in ("str", "int", "bool"):
+                    part = part + [t]
         table = W_FNS if ordered else G_FNS
         cls = "w" if ordered else "g"
         frozen = set(part) | set(order)
